@@ -612,6 +612,36 @@ func (e *l2Env) fixed() {
 	c3 := e.newCall(s3, "fixed", "alone")
 	e.rc.run(c3)
 	e.awaitCalls(c3)
+	// Further fixed shapes, one per clause of the verdict rule, so that each
+	// clause is exercised in every run whatever the seed draws:
+	fixedShapes := [][]L2Reaction{
+		// nobody reacts at all: no failure allowed;
+		{{Kind: l2Silent}, {Kind: l2Silent}, {Kind: l2Silent}, {Kind: l2Silent}},
+		// two of three requesters say "already in mempool", nobody says
+		// invalid: no failure allowed;
+		{{Kind: l2Accept}, {l2Reject, "dup-in-mempool"}, {l2Reject, "dup-have"}, {Kind: l2Silent}},
+		// rejects naming another transaction must be ignored;
+		{{l2OtherHash, "invalid"}, {l2OtherHash, "nonstandard"}, {Kind: l2Silent}, {Kind: l2Silent}},
+		// rejects after the reject window must be ignored (the silent peers
+		// keep the query open until BroadcastTimeout);
+		{{l2LateReject, "invalid"}, {Kind: l2Silent}, {Kind: l2Silent}, {l2LateReject, "dup-conflict"}},
+		// invalid share 2/4 below the threshold, 3/4 above it;
+		{{Kind: l2Accept}, {l2Reject, "invalid"}, {l2TwiceReject, "dup-spent"}, {Kind: l2Twice}},
+		{{Kind: l2Accept}, {l2Reject, "invalid"}, {l2Reject, "nonstandard"}, {l2Reject, "dup-conflict"}},
+		// everybody rejects, for different reasons.
+		{{l2Reject, "fee"}, {l2Reject, "invalid"}, {l2Reject, "fee"}, {l2NoReqReject, "dup-known"}},
+	}
+	for _, sh := range fixedShapes {
+		sc := map[string]L2Reaction{}
+		for i, p := range e.peers {
+			sc[p] = sh[i%len(sh)]
+		}
+		c := e.newCall(sc, "fixed", "alone")
+		e.rc.run(c)
+		if !e.awaitCalls(c) {
+			return
+		}
+	}
 }
 
 func (e *l2Env) verdict() {
@@ -737,15 +767,35 @@ func (e *l2Env) idleFor(d time.Duration) bool {
 // the event log at rest for 5 s afterwards (longer than BroadcastTimeout, the
 // longest pause inside a running rebroadcast round: no round is running).
 func (e *l2Env) awaitRebroadcast(seq int64, want []*l2Call) (missed []*l2Call, conclusive bool) {
-	bound := 10*time.Second + time.Duration(len(want)+1)*e.bto
 	all := func(c *l2Call) bool { return len(e.invSeen(c.Hash, seq)) == len(e.peers) }
-	for _, c := range want {
-		e.res.Count("l2_rebroadcast_expectations", 1)
-		if l2.WaitFor(bound, func() bool { return all(c) }) {
-			e.res.Count("l2_rebroadcast_seen_by_all_peers", 1)
-			continue
+	e.res.Count("l2_rebroadcast_expectations", int64(len(want)))
+	// The round has to start: some pending transaction is announced within
+	// 10 s of the client reporting the block. Its transactions are then sent
+	// one after the other, each query bounded by BroadcastTimeout.
+	started := l2.WaitFor(10*time.Second, func() bool {
+		for _, c := range want {
+			if len(e.invSeen(c.Hash, seq)) > 0 {
+				return true
+			}
 		}
-		missed = append(missed, c)
+		return false
+	})
+	if started {
+		l2.WaitFor(5*time.Second+time.Duration(len(want))*e.bto, func() bool {
+			for _, c := range want {
+				if !all(c) {
+					return false
+				}
+			}
+			return true
+		})
+	}
+	for _, c := range want {
+		if all(c) {
+			e.res.Count("l2_rebroadcast_seen_by_all_peers", 1)
+		} else {
+			missed = append(missed, c)
+		}
 	}
 	if len(missed) == 0 {
 		return nil, true
@@ -975,6 +1025,7 @@ func (e *l2Env) stopInFlight() {
 		if !e.awaitCalls(c) {
 			return
 		}
+		e.settle()
 		seq, ok := e.announce()
 		if !ok {
 			return
